@@ -1,7 +1,6 @@
 package kvql
 
 import (
-	"encoding/json"
 	"strconv"
 	"strings"
 )
@@ -178,9 +177,7 @@ func funcJsonVec(chunk []KVPair, args []Expression, ctx *ExecuteCtx) ([]any, err
 		if !ok {
 			return nil, NewExecuteError(args[0].GetPos(), "Cannot convert to byte array")
 		}
-		item := make(JSON)
-		json.Unmarshal(val, &item)
-		values[i] = item
+		values[i] = parseJSONDocument(val)
 	}
 	return values, nil
 }
